@@ -630,6 +630,19 @@ mut("c07-origin-end-reverted", "C07", "seqio/genbank_subparsers.go",
     "\t\t\t\tgb.Origin = &Origin{p, false}\n\t\t\t\treturn expectNoMoreResidues(state)\n", "\t\t\t\tgb.Origin = &Origin{p, false}\n\t\t\t\treturn nil\n",
     ["ORIGIN-END|seqio.makeGenbankOriginParser|store#1"], note="the repaired defect, reintroduced on the fast path")
 
+mut("c18-byte-index-255", "C18", "nucleotide.go",
+    "func replaceBytes(p, old, new []byte) []byte {",
+    "var identity255 [255]byte\n\nfunc lookup255(c byte) byte { return identity255[c] }\n\nfunc replaceBytes(p, old, new []byte) []byte {",
+    ["BYTE-INDEX|gts.lookup255|byte-index#1"], note="positive example: a table one entry short")
+mut("c18-byte-index-silent-256", "C18", "nucleotide.go",
+    "func replaceBytes(p, old, new []byte) []byte {",
+    "var identity256 [256]byte\n\nfunc lookup256(c byte) byte { return identity256[c] }\n\nfunc replaceBytes(p, old, new []byte) []byte {",
+    silent=True)
+mut("c02-uncomparable-shortcut", "C02", "location.go",
+    "\tfor j, loc := range joined {\n\t\tlocs[j] = loc.Shift(i, n)\n\t}\n\treturn Join(locs...)",
+    "\tsame := true\n\tfor j, loc := range joined {\n\t\tlocs[j] = loc.Shift(i, n)\n\t\tsame = same && locs[j] == loc\n\t}\n\t_ = same\n\treturn Join(locs...)",
+    ["UNCOMPARABLE|gts.Joined.Shift|compare#1"], note="positive example: interface comparison that panics for nested joins")
+
 if __name__ == "__main__":
     here = os.path.dirname(os.path.abspath(__file__))
     ids = [m["id"] for m in M]
